@@ -3,7 +3,31 @@ KERNEL = "Coq 8.16.1 kernel (coqc; coqchk in the thorough tier); vm_compute; no 
 TRANSLATOR = "/verif/translator (Go, go/ast pattern matching) regenerating coq/Gen/*.v from /repo on every run"
 HARNESS = "/verif/harness (Go) differential harness: runs the real code, writes coq/Cases/*_cases.v evaluated by vm_compute"
 
+RESTORE_TB = [KERNEL, TRANSLATOR + " (restorer-generated.go -> Gen/RestTbl.v statement by statement; dst.go, decorations-types-generated.go -> Gen/Universe.v; dstutil/decorations-generated.go, decorations-node-generated.go -> Gen/PointsTbl.v)",
+              HARNESS + "; hand model Model/Restore.v of restorer.go (applySpace, applyDecorations, applyLiteral, fileSize, SetLines, duplicate check, restoreIdent) tied by correspondence on lines, size, comment groups and every position field",
+              "assumption P: go/printer/go/format are not modelled (the printed text is a function of the restored positions, comments and line table)",
+              "token.FileSet modelled as its next-base counter"]
+
 PROPS = {
+    "C04": dict(
+        unknown_keys=["restorer-generated.go", "decorations-generated.go", "decorations-node-generated.go", "dst.go", "decorations-types-generated.go"],
+        trusted_base=RESTORE_TB,
+        assumptions=["'documented point' is tied to the code by the table obligations (each point rendered once, in the order of the Decorations struct, under its own name) and, on the implementation, by the oracle's doc-example check",
+                     "decorations that are neither comments nor newlines are not rendered (C04_other_strings_dropped)",
+                     "the recorded finding c04-first-emission-newline is excluded"],
+    ),
+    "C05": dict(
+        unknown_keys=["restorer-generated.go"],
+        trusted_base=RESTORE_TB,
+        assumptions=["the number of line breaks between positions determines blank lines in the printed text (go/printer: >= 2 breaks print as one blank line); the clause about argument lists split one per line is go/printer behaviour checked on the implementation only"],
+    ),
+    "C12": dict(
+        unknown_keys=["restorer-generated.go"],
+        trusted_base=RESTORE_TB,
+        assumptions=["hypotheses act_ok / safe of C12_position_space_coherent are evaluated (as booleans) on every tree of the correspondence; they are not proved for all trees",
+                     "'equals the order of a fresh parse of the printed text' needs go/printer and go/parser and is checked on the implementation only",
+                     "the recorded finding c12-first-emission-newline is excluded by nlbad = false"],
+    ),
     "C13": dict(
         unknown_keys=["walk.go", "dst.go"],
         trusted_base=[KERNEL, TRANSLATOR + " (walk.go -> Gen/WalkTbl.v, dst.go -> Gen/Universe.v, go/ast walk.go as reference)", HARNESS,
